@@ -19,6 +19,7 @@ META = {
     "engine": "E1 nir2smt (NIR netlist incl. Memory/SyncWritePort/SyncReadPort cells -> z3 QF_BV)",
     "encoded": ["wishbone.sram.WishboneSRAM.__init__", "wishbone.sram.WishboneSRAM.elaborate",
                 "amaranth.lib.memory.Memory read_port/write_port (through NIR memory cells)"],
+    "also": 'init images full / short / one word / empty, given as list / tuple / generator / iterator / map, optionally replaced through the init attribute; 128x8 and 64x32 memories; geometry obligation',
     "bounds": "2 frames from a free state (FFs, read-port register and every memory row symbolic) + 1 frame from "
               "reset; size 2..16 granules (thorough 2..64), data width 8-64, granularity <= data width, "
               "writable and read-only",
